@@ -436,7 +436,12 @@ def producer_keys(prog, fi, task, depth=0):
             if g.node.args.kwarg is not None:
                 kwn = g.node.args.kwarg.arg
                 copies = any(isinstance(n, ast.For) and isinstance(n.iter, ast.Name) and n.iter.id == kwn
-                             for n in ast.walk(g.node))
+                             for n in ast.walk(g.node)) or \
+                    any(isinstance(n, ast.Call) and isinstance(n.func, ast.Attribute) and n.func.attr == "update"
+                        and len(n.args) == 1 and isinstance(n.args[0], ast.Name) and n.args[0].id == kwn
+                        for n in ast.walk(g.node)) or \
+                    any(isinstance(n, ast.Dict) and any(k is None and isinstance(v, ast.Name) and v.id == kwn
+                                                        for k, v in zip(n.keys, n.values)) for n in ast.walk(g.node))
                 if copies:
                     keys |= {k.arg for k in task.keywords if k.arg}
         return (keys if found else None), f"generator {norm(task.func)}"
